@@ -149,6 +149,13 @@ def run_property(ctx, mod, units, t0):
     if violations:
         from . import replay
         reported = set()
+        uniq = []
+        for v in violations:
+            if v["obligation"] in reported:
+                continue            # the same clause failed on several inputs of a bounded unit: one line, first witness
+            reported.add(v["obligation"])
+            uniq.append(v)
+        violations = uniq
         for v in violations[:12]:
             path, confirmed = replay.write(ctx, v)
             nviol += 1
